@@ -222,6 +222,8 @@ def run_property(prop: str, tier: str, seed: int = 0, jobs: int | None = None, o
     workdir = os.path.join(VERIF, ".work", f"{prop}-{os.getpid()}")
     os.makedirs(workdir, exist_ok=True)
     rdir = os.path.join(VERIF, "replays", prop)
+    if not only:  # a full run owns the property's replay directory: no stale counterexamples
+        shutil.rmtree(rdir, ignore_errors=True)
     os.makedirs(rdir, exist_ok=True)
     jobs = jobs or int(os.environ.get("VERIF_JOBS", "0")) or min(16, os.cpu_count() or 4)
     results = []
